@@ -4,7 +4,7 @@ with member list `M`, no application traffic.  Side conditions, the listener con
 `NInv`.  Helper lemmas.
 -/
 import ProfiVerif.Lemmas.TimedRingStream
-import ProfiVerif.Lemmas.TimedRingListen
+import ProfiVerif.Lemmas.TimedRingApps
 
 namespace PV
 open StationGap TokenRing
@@ -57,34 +57,64 @@ theorem telOf_req (t : Transmission) (g a : Nat) (hg : g < 128) (ha : a < 128) (
   rw [List.append_nil, reqTel_wire, ← h] at this
   rw [this]
 
-/-- What may be on the bus of the stable ring: a token pass of a member to its successor, or a GAP request
-of a member to an address that is not a member. -/
+theorem telOf_app (t : Transmission) (h : Header) (pdu : Bytes) (hb : t.bytes = frameSpec h pdu) (hP : AppP h pdu)
+    (hl : h.lengthByte pdu.length ≤ 249) : telOf t = .data h pdu := by
+  unfold telOf
+  have := decode_wire (.data h pdu) ⟨hP.1, hP.2.1, hl⟩ []
+  rw [List.append_nil] at this
+  have e : (Telegram.data h pdu).wire = t.bytes := hb.symm
+  rw [e] at this
+  rw [this]
+
+theorem frameSpec_ne_token (h : Header) (pdu : Bytes) (a b : Nat) : frameSpec h pdu ≠ tokenBytes a b := by
+  intro e
+  have := congrArg (fun l => l.head?) e
+  unfold frameSpec tokenBytes sendToken at this
+  simp only at this
+  split at this
+  · simp [SD1, SD4] at this
+  · split at this
+    · simp [SD3, SD4] at this
+    · simp [SD2, SD4] at this
+
+/-- What may be on the bus of the stable ring: a token pass of a member to its successor, a GAP request
+of a member to an address that is not a member, or an application telegram (`AppP`: valid addresses, not an
+FDL status request). -/
 def TxKind (M : List Nat) (adr : Nat → Nat) (n : Nat) (t : Transmission) : Prop :=
   ∃ i, i < n ∧ t.sender = i ∧
-    (t.bytes = tokenBytes (cycSucc (adr i) M) (adr i) ∨ ∃ g, g < 126 ∧ g ∉ M ∧ t.bytes = statusRequestBytes g (adr i))
+    (t.bytes = tokenBytes (cycSucc (adr i) M) (adr i) ∨ (∃ g, g < 126 ∧ g ∉ M ∧ t.bytes = statusRequestBytes g (adr i)) ∨
+     (∃ h pdu, t.bytes = frameSpec h pdu ∧ AppP h pdu ∧ h.lengthByte pdu.length ≤ 249))
 
 theorem TxKind.wire {M : List Nat} {adr : Nat → Nat} {n : Nat} (hR : RingCfg M adr n) {t : Transmission}
     (h : TxKind M adr n t) : t.bytes = (telOf t).wire ∧ (telOf t).Valid ∧ 0 < t.bytes.length := by
-  obtain ⟨i, hi, -, hb | ⟨g, hg, -, hb⟩⟩ := h
+  obtain ⟨i, hi, -, hb | ⟨g, hg, -, hb⟩ | ⟨h0, pdu, hb, hP, hl⟩⟩ := h
   · rw [telOf_token t _ M hb, tokTel_wire]
     exact ⟨hb, trivial, by rw [hb]; show 0 < 3; omega⟩
   · have ha := hR.lt i hi
     rw [telOf_req t g _ (by omega) (by omega) hb, reqTel_wire]
     exact ⟨hb, reqTel_valid _ _ (by omega) (by omega), by rw [hb, statusRequestBytes_length]; omega⟩
+  · rw [telOf_app t h0 pdu hb hP hl]
+    refine ⟨hb, ⟨hP.1, hP.2.1, hl⟩, ?_⟩
+    rw [hb, frame_length]
+    unfold Header.telegramLen
+    simp only
+    split <;> omega
 
 /-- A transmission that station `j` (not its sender) merely overhears. -/
 theorem TxKind.foreign {M : List Nat} {adr : Nat → Nat} {n : Nat} (hR : RingCfg M adr n) {t : Transmission}
     (h : TxKind M adr n t) (j : Nat) (hj : j < n) (hs : t.sender ≠ j)
     (hnot : ∀ a, t.bytes ≠ tokenBytes (adr j) a) : Foreign M (adr j) (telOf t) := by
-  obtain ⟨i, hi, hsi, hb | ⟨g, hg, hgM, hb⟩⟩ := h
+  obtain ⟨i, hi, hsi, hb | ⟨g, hg, hgM, hb⟩ | ⟨h0, pdu, hb, hP, hl⟩⟩ := h
   · left
     refine ⟨adr i, hR.mem i hi, ?_, ?_, telOf_token t _ M hb⟩
     · intro e; exact hs (hsi.trans (hR.inj i j hi hj e))
     · intro e; exact hnot (adr i) (by rw [hb, e])
-  · right
+  · right; left
     have ha := hR.lt i hi
     refine ⟨g, adr i, hg, ha, ?_, telOf_req t g _ (by omega) (by omega) hb⟩
     intro e; exact hgM (e ▸ hR.mem j hj)
+  · right; right
+    exact ⟨h0, pdu, telOf_app t h0 pdu hb hP hl, hP.2.2⟩
 
 /-! ## Side conditions -/
 
@@ -94,8 +124,8 @@ def Cfg.gmax (c : Cfg) : Nat := c.slot + 2 * c.P + c.b33
 structure StOkN (cfg : Cfg) (M : List Nat) (st : NetStation) (a : Nat) : Prop where
   online : st.online = true
   alive : st.dead = false
-  apps : st.apps = []
-  inv : Inv st.s []
+  apps : AnsOk AppP st.apps
+  inv : Inv st.s st.apps
   son : st.s.online = true
   rate : st.s.p.rate = cfg.rate
   slotBits : st.s.p.slotBits = cfg.slotBits
@@ -110,17 +140,15 @@ theorem StOkN.slot {cfg : Cfg} {M : List Nat} {st : NetStation} {a : Nat} (h : S
   unfold Params.slotTime Cfg.slot; rw [h.bits, h.slotBits]
 
 theorem StOkN.step {cfg : Cfg} {M : List Nat} {st : NetStation} {a : Nat} (h : StOkN cfg M st a) (now : Int) (phy : Bool)
-    (rx : Bytes) (c : Ctx) (hp : st.s.poll [] now phy rx = .ok c) (h1 : c.s.p = st.s.p)
-    (h2 : RingView M a c.s.ring) (h3 : c.s.online = true) : StOkN cfg M (upSt st c) a := by
-  obtain ⟨c', hc', hinv', hlen⟩ := pollInner_good { s := st.s, apps := [], rx := rx } now phy h.inv rfl
+    (rx : Bytes) (c : Ctx) (hp : st.s.poll st.apps now phy rx = .ok c) (h1 : c.s.p = st.s.p)
+    (h2 : RingView M a c.s.ring) (h3 : c.s.online = true) (h4 : AnsOk AppP c.apps) : StOkN cfg M (upSt st c) a := by
+  obtain ⟨c', hc', hinv', hlen⟩ := pollInner_good { s := st.s, apps := st.apps, rx := rx } now phy h.inv rfl
   have : c' = c := by
-    have hp' : pollInner { s := st.s, apps := [], rx := rx } now phy = .ok c := hp
+    have hp' : pollInner { s := st.s, apps := st.apps, rx := rx } now phy = .ok c := hp
     rw [hc'] at hp'; cases hp'; rfl
   subst this
-  have happs : c'.apps = [] := List.eq_nil_of_length_eq_zero hlen
-  rw [happs] at hinv'
   unfold upSt
-  exact ⟨h.online, h.alive, happs, hinv', h3, by simp only [h1]; exact h.rate, by simp only [h1]; exact h.slotBits,
+  exact ⟨h.online, h.alive, h4, hinv', h3, by simp only [h1]; exact h.rate, by simp only [h1]; exact h.slotBits,
     by simp only [h1]; exact h.addr, h2, by simp only [h1]; exact h.tto⟩
 
 /-- End of a transmission in terms of the configuration constants. -/
